@@ -1763,8 +1763,9 @@ class OperatorRightScalarMult(Operator):
 
     def _call(self, x, out=None):
         """Implement ``self(x[, out])``."""
-        if out is None:
-            return self.operator(self.scalar * x)
+        if out is None or isinstance(self.domain, Field):
+            # Field elements cannot be used as temporaries
+            return self.operator(self.scalar * x, out=out)
         else:
             if self.__tmp is not None:
                 tmp = self.__tmp
